@@ -1,4 +1,5 @@
 import BnpVerif.Base.Opt
+import BnpVerif.Model.C10
 /-! C11 — streamed evaluation equals in-memory evaluation for every chunking.
 
 Executable model of `bionumpy/streams/{decorators,reductions,groupby_func,chunk_entries}.py`,
@@ -245,13 +246,21 @@ indices smaller than its own). Buffers are `List Int`; node functions are elemen
 operations (what NumPy ufuncs on nodes create) or a constant operand. -/
 
 inductive Fn where
-  | add | sub | mul
+  | add | sub | mul                  -- element-wise ufuncs (`node + node`, `node * 2`, …)
+  | sum                              -- `np.sum(buffer)`: the inner node of `np.sum(node)`
+  | sumN                             -- `sum_and_n(buffer)`: the inner node of `np.mean(node)`
+  | hist (edges : List Int)          -- `np.histogram(buffer, bins=edges)[0]`: inner node of `np.histogram(node, edges)`
   deriving DecidableEq, Repr
+
+def Fn.elementwise : Fn → Bool
+  | .add | .sub | .mul => true
+  | _ => false
 
 def Fn.app : Fn → Int → Int → Int
   | .add, a, b => a + b
   | .sub, a, b => a - b
   | .mul, a, b => a * b
+  | _, a, _ => a
 
 inductive Arg where
   | node (i : Nat)
@@ -295,12 +304,28 @@ def needsAdvance (idx : Option Nat) (i : Nat) : Bool :=
 def setAt {β} (l : List β) (n : Nat) (v : β) : List β := l.set n v
 
 /-- element-wise ufunc on two operands with NumPy broadcasting of a scalar constant -/
-def applyFn (f : Fn) (a b : List Int ⊕ Int) : List Int :=
+def applyEw (f : Fn) (a b : List Int ⊕ Int) : List Int :=
   match a, b with
   | .inl x, .inl y => List.zipWith f.app x y
   | .inl x, .inr c => x.map (fun v => f.app v c)
   | .inr c, .inl y => y.map (fun v => f.app c v)
   | .inr c, .inr d => [f.app c d]
+
+/-- the per-buffer functions whose results a `ReductionNode` folds: one small array per buffer -/
+def applyRed (f : Fn) (x : List Int) : List Int :=
+  match f with
+  | .sum => [x.sum]
+  | .sumN => [x.sum, (x.length : Int)]
+  | .hist e => (histogram e x).map Int.ofNat
+  | _ => x
+
+/-- the function of a `ComputationNode` applied to its evaluated arguments (unary reductions ignore
+the second operand slot, which the model fills with a constant) -/
+def applyFn (f : Fn) (a b : List Int ⊕ Int) : List Int :=
+  if f.elementwise then applyEw f a b
+  else match a with
+    | .inl x => applyRed f x
+    | .inr c => applyRed f [c]
 
 /-- evaluating one argument of a `ComputationNode`: constants are passed through, node arguments
 are asked for their buffer (`rec` = `_get_buffer(i)` of the argument) -/
@@ -378,6 +403,54 @@ def computeGraph (g : List NodeDef) (root : Nat) (fuel : Nat) : Except GErr (Lis
     | .ok (vs, st') => .ok (vs.flatten, st')
     | .error e => .error e
 
+/-- `_get_buffer(i)` of several roots one after the other (the argument evaluation of a `JoinNode` /
+of the node built by `ReductionNode.join`) -/
+def getBuffers (g : List NodeDef) : List Nat → GState → Nat → Except GErr (GState × List (List Int))
+  | [], st, _ => .ok (st, [])
+  | r :: rs, st, i =>
+    match getBuffer g (r + 1) st r i with
+    | .error e => .error e
+    | .ok (st', v) =>
+      match getBuffers g rs st' i with
+      | .error e => .error e
+      | .ok (st'', vs) => .ok (st'', v :: vs)
+
+/-- `get_iter` of the joining node: one tuple of buffers per index until `StopIteration` -/
+def getIterMany (g : List NodeDef) (roots : List Nat) : Nat → Nat → GState → Except GErr (List (List (List Int)) × GState)
+  | 0, _, st => .ok ([], st)
+  | fuel + 1, i, st =>
+    match getBuffers g roots st i with
+    | .error .stop => .ok ([], st)
+    | .error e => .error e
+    | .ok (st', v) =>
+      match getIterMany g roots fuel (i + 1) st' with
+      | .ok (vs, st'') => .ok (v :: vs, st'')
+      | .error e => .error e
+
+/-- `compute([a, b, …])` = `JoinNode.compute()`: every column concatenated over the buffer index.
+(The joining node's own buffer index is only ever advanced by its own iterator and is not modelled.) -/
+def computeMany (g : List NodeDef) (roots : List Nat) (fuel : Nat) : Except GErr (List (List Int) × GState) :=
+  match construct g g.length (initState g) with
+  | .error e => .error e
+  | .ok st =>
+    match getIterMany g roots fuel 0 st with
+    | .ok (rows, st') => .ok ((List.range roots.length).map (fun j => (rows.map (fun r => r.getD j [])).flatten), st')
+    | .error e => .error e
+
+/-- the binary function of a (joined) `ReductionNode` on tuples of per-buffer results: `operator.add`,
+`mean_reduction`, `_add_histograms` all add position-wise -/
+def addTuples (a b : List (List Int)) : List (List Int) := List.zipWith (List.zipWith (· + ·)) a b
+
+/-- `compute((r₁, r₂, …))` of reduction nodes = `reduce(binary_func, joined.get_iter())`, before the
+post-processing (`sum / n` for a mean): `none` inside `ok` is `reduce` of an empty sequence -/
+def computeReduced (g : List NodeDef) (roots : List Nat) (fuel : Nat) : Except GErr (Option (List (List Int)) × GState) :=
+  match construct g g.length (initState g) with
+  | .error e => .error e
+  | .ok st =>
+    match getIterMany g roots fuel 0 st with
+    | .ok (rows, st') => .ok (reduce1 addTuples rows, st')
+    | .error e => .error e
+
 /-- value of one argument, given the values of the nodes constructed earlier -/
 def argValWith (rec : Nat → Option (List Int)) (n : Nat) : Arg → Option (List Int ⊕ Int)
   | .const c => some (.inr c)
@@ -412,5 +485,68 @@ def evalMem (g : List NodeDef) : Nat → Nat → Option (List Int)
       (argValWith (evalMem g fuel) n a).bind (fun va =>
         (argValWith (evalMem g fuel) n b).map (fun vb => applyFn f va vb))
     | none => none
+
+/-! ### stream=True genome pipelines: one buffer per chromosome
+
+`Genome.get_intervals(stream of chunks)` = `iter_chromosomes(groupby(stream, "chromosome"))`: the chunked,
+chromosome-sorted entries are grouped (groups cut by a chunk boundary are joined), then the genome
+order is walked handing out each chromosome's group or an empty table. `get_pileup()` / `get_mask()`
+are `ComputationNode`s over (entries buffer, chromosome size buffer); `compute` concatenates the
+per-chromosome results (lock step: the graph theorems). Entries are `C10.Iv` (chromosome index,
+start, stop). -/
+
+/-- `GenomeContext._iter_chromosomes`: `rem` chromosomes left, `c` the current one, `seen` the ones
+done, `groups` = the pending group (already pulled) followed by what the group stream still holds.
+`none` = `GenomeError` (sort order discrepancy / data left over). -/
+def iterChrom : Nat → Nat → List Nat → List (Nat × List C10.Iv) → Option (List (List C10.Iv))
+  | 0, _, _, groups =>
+    match groups with
+    | _ :: _ :: _ => none          -- `next(grouped, None) is not None`
+    | _ => some []
+  | rem + 1, c, seen, groups =>
+    match groups with
+    | (name, grp) :: rest =>
+      if name = c then
+        match rest with
+        | (n2, _) :: _ =>
+          if seen.contains n2 then none
+          else (iterChrom rem (c + 1) (c :: seen) rest).map (grp :: ·)
+        | [] => (iterChrom rem (c + 1) (c :: seen) rest).map (grp :: ·)
+      else (iterChrom rem (c + 1) (c :: seen) groups).map ([] :: ·)
+    | [] => (iterChrom rem (c + 1) (c :: seen) []).map ([] :: ·)
+
+/-- the per-chromosome buffers of a streamed interval set (chromosome column is an identifier
+column: no first=last shortcut in `groupby`) -/
+def chromBuffers (nchrom : Nat) (cs : List (List C10.Iv)) : Option (List (List C10.Iv)) :=
+  match groupbyStream false (fun iv : C10.Iv => iv.c) cs with
+  | none => none
+  | some groups => iterChrom nchrom 0 [] groups
+
+/-- single-contig `get_pileup(entries, size)` as a dense array (NumPy / npstructures external) -/
+def pileup1 (size : Nat) (l : List C10.Iv) : List Nat :=
+  (List.range size).map (fun p => (l.filter (fun iv => decide (iv.s ≤ p) && decide (p < iv.e))).length)
+
+def mask1 (size : Nat) (l : List C10.Iv) : List Nat := (pileup1 size l).map (fun n => if n = 0 then 0 else 1)
+
+/-- `compute(streamed.get_pileup())`: per-chromosome pile-ups concatenated in genome order -/
+def streamPileup (sizes : List Nat) (cs : List (List C10.Iv)) : Option (List Nat) :=
+  (chromBuffers sizes.length cs).map (fun bufs => (List.zipWith pileup1 sizes bufs).flatten)
+
+def streamMask (sizes : List Nat) (cs : List (List C10.Iv)) : Option (List Nat) :=
+  (chromBuffers sizes.length cs).map (fun bufs => (List.zipWith mask1 sizes bufs).flatten)
+
+/-- `compute(np.sum(streamed.get_pileup()))`: the per-chromosome sums added up -/
+def streamPileupSum (sizes : List Nat) (cs : List (List C10.Iv)) : Option Nat :=
+  (chromBuffers sizes.length cs).map (fun bufs => ((List.zipWith pileup1 sizes bufs).map List.sum).sum)
+
+/-- `compute(streamed_pileup[peaks])`: per chromosome, the slices of that chromosome's array under
+that chromosome's peaks (`extract_intervals` over `peaks.as_stream()`), concatenated in genome order -/
+def valuesRows (arrays : List (List Nat)) (peakBufs : List (List C10.Iv)) : List (List Nat) :=
+  (List.zipWith (fun d pk => pk.map (fun iv : C10.Iv => (d.drop iv.s).take (iv.e - iv.s))) arrays peakBufs).flatten
+
+def streamValues (sizes : List Nat) (cs peakChunks : List (List C10.Iv)) : Option (List (List Nat)) :=
+  match chromBuffers sizes.length cs, chromBuffers sizes.length peakChunks with
+  | some bufs, some pk => some (valuesRows (List.zipWith pileup1 sizes bufs) pk)
+  | _, _ => none
 
 end C11
